@@ -100,6 +100,13 @@ def closed(t=None):
     add("shadow: ct(cond(n<f, u_i, v_i),(i))[1]", C.Indexed(C.ComponentTensor(conditional(lt(n_, f), u[i], v[i]), MI((i,))), MI((FixedIndex(1),))))
     add("shadow: ct(n*u_i,(i))[0]", C.Indexed(C.ComponentTensor(C.Product(n_, u[i]), MI((i,))), MI((FixedIndex(0),))))
     add("shadow: sum_ij (A_ij/(1+tr))*(A_ij/(1+tr)), tr = A_ii", (A[i, j] / (1 + A[i, i])) * (A[i, j] / (1 + A[i, i])))
+    # a Zero that carries the component tensor's own index (0*u_i in one branch), the tensor indexed by a fixed / free / summed index
+    zct = as_tensor(conditional(lt(f, g), 0 * u[i], u[i]), (i,))
+    add("zero_i inside a ct, fixed index", zct[0])
+    add("zero_i inside a ct, free index contracted", zct[k] * v[k])
+    zct2 = as_tensor(conditional(lt(f, g), 0 * A[i, j], A[i, j]), (i, j))
+    add("zero_ij inside a ct, [0,1]", zct2[0, 1])
+    add("zero_ij inside a ct, [k,0] v_k", zct2[k, 0] * v[k])
     return [x for x in out if x is not None and x[1] is not None]
 
 
